@@ -174,6 +174,7 @@ def render(cases):
         inp = c["input"]
         types = inp["types"]
         cid = "m%d" % n
+        first_line = sum(x.count("\n") + 1 for x in out) + 1
         params = "".join(", a%d: %s" % (i, RTYPE[t]) for i, t in enumerate(types))
         out.append("#[unimock(api=M%d)]\ntrait Tr%d { fn f%d(&self%s); }" % (n, n, n, params))
         out.append(plain_match(inp, n))
@@ -202,7 +203,8 @@ fn %(cid)s() {
         mism = None
         if c["mism"]:
             mism = ",".join("-" if b == 1 else ".".join(str(x - 1) for x in sorted(m)) for b, m in zip(c["bits"], c["mism"]))
-        exp[cid] = {"bits": bits, "matching": mt, "input": inp, "mism": mism}
+        exp[cid] = {"bits": bits, "matching": mt, "input": inp, "mism": mism, "src_case": c,
+                    "lines": [first_line, sum(x.count("\n") + 1 for x in out)]}
     out.append("\nfn main() {\n    std::panic::set_hook(Box::new(|_| {}));\n" + "".join("    %s();\n" % f for f in fns) + "}\n")
     return "\n".join(out), exp
 
